@@ -913,4 +913,354 @@ def check (P : Problem) (S : Solution) : List Code :=
 /-- which groups reject -/
 def rejecting (P : Problem) (S : Solution) : List Group := chain.filter (fun g => !(groupErrors P S g).isEmpty)
 
+/-! # Independent specification: the rules the checker documents
+
+Stated positionally / by counting over the (problem, solution) pair, not as the folds of the code.
+`validSolution` is the conjunction; every conjunct is a `Bool` so that the driver can evaluate it on the
+implementation's inputs. `supported` collects the input shapes on which the unchanged checker is known
+to decide correctly (each excluded shape has a witness in `corpus/C12/deviations.jsonl`). -/
+
+namespace Spec
+
+/-- the shift a tour claims to run in (by `shiftIndex`, as the documentation defines a tour) -/
+def shiftOf (P : Problem) (t : Tour) : Option Shift :=
+  (findVehicle P t.vehicleId).bind (fun v => v.shifts[t.shiftIndex]?)
+
+def tourKey (t : Tour) : String × Nat := (t.vehicleId, t.shiftIndex)
+
+/-! ## vehicles -/
+
+/-- every tour runs a vehicle of the fleet, no (vehicle, shift) pair twice -/
+def vehiclesOk (P : Problem) (S : Solution) : Bool :=
+  S.tours.all (fun t => (findVehicle P t.vehicleId).isSome) && !hasDup (S.tours.map tourKey)
+
+/-! ## partition of the jobs -/
+
+/-- all job activities of a tour with their position inside the tour -/
+def tourJobActs (t : Tour) : List (Nat × Act) := (indexed 0 (tourActs t)).filter (fun p => isJobTy p.2.ty)
+
+/-- number of activities of job `id` in tour `t` -/
+def servedIn (t : Tour) (id : String) : Nat := countP (fun p => p.2.jobId == id) (tourJobActs t)
+
+/-- number of activities of job `id` in the whole solution -/
+def served (S : Solution) (id : String) : Nat := (S.tours.map (fun t => servedIn t id)).sum
+
+/-- how often the unassigned list names `id` -/
+def listed (S : Solution) (id : String) : Nat := countP (fun x => x == id) (unassignedIds S)
+
+/-- pickups of a job come before its deliveries (positions inside the tour) -/
+def pickupsFirst (t : Tour) (id : String) : Bool :=
+  (tourJobActs t).all (fun p => (tourJobActs t).all (fun d =>
+    !(p.2.jobId == id && d.2.jobId == id && p.2.ty == .pickup && d.2.ty == .delivery) || decide (p.1 ≤ d.1)))
+
+/-- a job is either served completely by exactly one tour and not listed, or not served and listed once -/
+def jobOk (S : Solution) (j : Job) : Bool :=
+  (served S j.id == j.tasks.length && listed S j.id == 0
+    && S.tours.all (fun t => servedIn t j.id == 0 || servedIn t j.id == j.tasks.length)
+    && S.tours.all (fun t => pickupsFirst t j.id))
+  || (served S j.id == 0 && listed S j.id == 1)
+
+def partitionOk (P : Problem) (S : Solution) : Bool :=
+  P.jobs.all (jobOk S)
+  && S.tours.all (fun t => (tourJobActs t).all (fun p => (findJob P p.2.jobId).isSome))
+  && (unassignedIds S).all (fun id => (findJob P id).isSome)
+
+/-! ## groups -/
+
+/-- all jobs of one group are served by one tour -/
+def groupsOk (P : Problem) (S : Solution) : Bool :=
+  S.tours.all (fun t1 => S.tours.all (fun t2 =>
+    (t1.typeId == t2.typeId && t1.vehicleId == t2.vehicleId && t1.shiftIndex == t2.shiftIndex) ||
+    (tourActs t1).all (fun a1 => (tourActs t2).all (fun a2 =>
+      match findJob P a1.jobId, findJob P a2.jobId with
+      | some j1, some j2 => (match j1.group, j2.group with | some g1, some g2 => g1 != g2 | _, _ => true)
+      | _, _ => true))))
+
+/-! ## loads -/
+
+/-- demand of a job activity: the demand of the task (of the same kind, picked by tag for multi-task jobs) -/
+def taskOf (P : Problem) (a : Act) : Option (Job × Task) :=
+  match findJob P a.jobId, kindOfTy a.ty with
+  | some j, some k =>
+    let cands := (tasksOf j k).filter (fun t => j.tasks.length ≤ 1 || t.places.any (fun p => p.tag == a.tag)
+                                               || (j.tasks.length == 2 && (tasksOf j k).length == 1))
+    cands.head?.map (fun t => (j, t))
+  | _, _ => none
+
+/-- per dimension: (static delivery, static pickup, dynamic change) of an activity -/
+def actDelta (P : Problem) (a : Act) (d : Nat) : Int × Int × Int :=
+  match taskOf P a with
+  | none => (0, 0, 0)
+  | some (j, t) =>
+    let x := t.demand.getD d 0
+    let dyn := isDynamic j
+    match a.ty with
+    | .delivery => if dyn then (0, 0, -x) else (x, 0, 0)
+    | .pickup => if dyn then (0, 0, x) else (0, x, 0)
+    | _ => (0, 0, 0)
+
+def stopDelta (P : Problem) (s : Stop) (d : Nat) : Int × Int × Int :=
+  s.acts.foldl (fun acc a => let x := actDelta P a d; (acc.1 + x.1, acc.2.1 + x.2.1, acc.2.2 + x.2.2)) (0, 0, 0)
+
+def sumBy (f : Stop → Int) (l : List Stop) : Int := sumInt (l.map f)
+
+/-- the load after the stop at position `m` of a reload interval `iv` in dimension `d`, where `dynBefore` is what
+the dynamic (pickup-and-delivery) jobs left on board before the interval:
+deliveries still ahead in the interval + pickups collected since its start + dynamic goods on board;
+at the stop that ends the tour (arrival) the collected pickups are unloaded -/
+def expectedLoad (P : Problem) (dynBefore : Int) (iv : List Stop) (m d : Nat) : Int :=
+  let ahead := sumBy (fun s => (stopDelta P s d).1) (iv.drop (m + 1))
+  let sofar := sumBy (fun s => (stopDelta P s d).2.1) ((iv.take (m + 1)).drop 1)
+  let dyn := dynBefore + sumBy (fun s => (stopDelta P s d).2.2) ((iv.take (m + 1)).drop 1)
+  let unloaded := match iv[m]? with
+    | some s => if m ≥ 1 && s.acts.any (fun a => a.ty == .arrival || a.ty == .reload)
+                then sumBy (fun s => (stopDelta P s d).2.1) (iv.drop 1) else 0
+    | none => 0
+  ahead + sofar + dyn - unloaded
+
+def dims (P : Problem) (t : Tour) : Nat :=
+  (t.stops.map (fun s => s.load.length)).foldl max
+    (P.jobs.foldl (fun acc j => j.tasks.foldl (fun acc2 tk => max acc2 tk.demand.length) acc) 1)
+
+def intervalLoadsOk (P : Problem) (cap : Load) (nd : Nat) (dynBefore : List Int) (iv : List Stop) : Bool :=
+  (List.range iv.length).all (fun m =>
+    match iv[m]? with
+    | none => true
+    | some s =>
+      !s.load.isEmpty &&
+      (List.range nd).all (fun d =>
+        s.load.getD d 0 == expectedLoad P (dynBefore.getD d 0) iv m d && decide (s.load.getD d 0 ≤ cap.getD d 0)))
+
+/-- loads over the reload intervals of a tour; `dynBefore` per dimension -/
+def intervalsLoadsOk (P : Problem) (cap : Load) (nd : Nat) : List Int → List (List Stop) → Bool
+  | _, [] => true
+  | dynBefore, iv :: rest =>
+    intervalLoadsOk P cap nd dynBefore iv &&
+    intervalsLoadsOk P cap nd
+      ((List.range nd).map (fun d => dynBefore.getD d 0 + sumBy (fun s => (stopDelta P s d).2.2) (iv.drop 1))) rest
+
+/-- every job activity refers to a task, every reload/break activity to something the shift defines -/
+def actsKnown (P : Problem) (t : Tour) : Bool :=
+  t.stops.all (fun s => s.acts.all (fun a =>
+    match a.ty with
+    | .departure | .arrival => true
+    | .pickup | .delivery | .replacement | .service => (taskOf P a).isSome
+    | .brk | .reload => (activityType P t s a).toOption.isSome
+    | _ => false))
+
+def loadsOk (P : Problem) (S : Solution) : Bool :=
+  S.tours.all (fun t =>
+    match findVehicle P t.vehicleId with
+    | none => false
+    | some v =>
+      match intervals t.stops with
+      | none => false
+      | some ivs => (t.stops.length ≤ 1 || actsKnown P t) && intervalsLoadsOk P v.capacity (dims P t) [] ivs)
+
+/-! ## routing and statistics -/
+
+def legsOk (P : Problem) (v : VType) (skip : Bool) : List Stop → Bool
+  | a :: b :: rest =>
+    (match matrixData P v a.loc b.loc with
+     | none => false
+     | some (dist, dur) =>
+       decide (absI (a.departure + dur - b.arrival) ≤ 1) &&
+       (skip || decide (absI ((if rest.length + 2 == 0 then 0 else a.distance) + dist - b.distance) ≤ 1)))
+    && legsOk P v skip (b :: rest)
+  | _ => true
+
+/-- arrival = previous departure + travel time, distance = previous distance + leg distance (±1), from the matrices;
+tour statistic = last distance and time between first departure and last departure (±1) -/
+def routingTourOk (P : Problem) (skip : Bool) (t : Tour) : Bool :=
+  match findVehicle P t.vehicleId, firstStop t, lastStop t with
+  | some v, some f, some l =>
+    (match f.acts.head? with | some a => a.ty == .departure | none => false) &&
+    (skip || f.distance == 0 || t.stops.length ≤ 1) &&
+    legsOk P v skip t.stops &&
+    (skip || decide (absI ((if t.stops.length ≤ 1 then 0 else l.distance) - t.stat.distance) ≤ 1)) &&
+    decide (absI (l.departure - (match f.acts.head? with | some a => (match a.time with | some tm => tm.2 | none => f.departure) | none => f.departure)
+                  - t.stat.duration) ≤ 1)
+  | _, _, _ => false
+
+def routingOk (P : Problem) (S : Solution) : Bool :=
+  S.tours.all (routingTourOk P (skipDistance S)) &&
+  sumInt (S.tours.map (fun t => t.stat.distance)) == S.stat.distance &&
+  sumInt (S.tours.map (fun t => t.stat.duration)) == S.stat.duration
+
+/-! ## limits -/
+
+def isTerminalTy : ATy → Bool
+  | .departure | .arrival => true
+  | _ => false
+
+/-- distance / duration / tour size limits of the vehicle type; the tour lies inside its shift -/
+def limitsTourOk (P : Problem) (t : Tour) : Bool :=
+  match findVehicle P t.vehicleId, shiftOf P t, firstStop t, lastStop t with
+  | some v, some sh, some f, some l =>
+    (match v.maxDistance with | some m => decide (t.stat.distance ≤ m) | none => true) &&
+    (match v.maxDuration with | some m => decide (t.stat.duration ≤ m) | none => true) &&
+    (match v.tourSize with | some m => decide (countP (fun a => !isTerminalTy a.ty) (tourActs t) ≤ m) | none => true) &&
+    decide (sh.startEarliest ≤ f.departure) &&
+    (match sh.end_ with | some e => decide (l.arrival ≤ e.latest) | none => true)
+  | _, _, _, _ => false
+
+def limitsOk (P : Problem) (S : Solution) : Bool := S.tours.all (limitsTourOk P)
+
+/-! ## relations -/
+
+def isSubseq : List String → List String → Bool
+  | [], _ => true
+  | _ :: _, [] => false
+  | x :: xs, y :: ys => if x == y then isSubseq xs ys else isSubseq (x :: xs) ys
+
+def isPrefix : List String → List String → Bool
+  | [], _ => true
+  | _ :: _, [] => false
+  | x :: xs, y :: ys => x == y && isPrefix xs ys
+
+def isInfix (xs : List String) : List String → Bool
+  | [] => xs.isEmpty
+  | y :: ys => isPrefix xs (y :: ys) || isInfix xs ys
+
+/-- the relation names known ids, each customer job once per task, and
+any: no tour of ANOTHER vehicle serves a listed job; sequence: the listed ids occur in this order in the named tour;
+strict: they occur there one directly after the other -/
+def relationOk (P : Problem) (S : Solution) (r : Relation) : Bool :=
+  r.jobs.all (fun id => (findJob P id).isSome || isReservedId id) &&
+  r.jobs.all (fun id => isReservedId id || countP (fun x => x == id) r.jobs == jobTaskCount P id) &&
+  (match r.kind with
+   | .any =>
+     S.tours.all (fun o => o.vehicleId == r.vehicleId ||
+       (tourIds o).all (fun id => isReservedId id || !r.jobs.contains id))
+   | .sequence =>
+     (match findTour S r.vehicleId (r.shiftIndex.getD 0) with
+      | none => false
+      | some t => isSubseq r.jobs (tourIds t))
+   | .strict =>
+     (match findTour S r.vehicleId (r.shiftIndex.getD 0) with
+      | none => false
+      | some t => isInfix r.jobs (tourIds t)))
+
+def relationsOk (P : Problem) (S : Solution) : Bool := P.relations.all (relationOk P S)
+
+/-! ## breaks -/
+
+/-- a break is due when its policy does not allow to skip it (as documented) -/
+def breakDue (t : Tour) (b : Break) : Bool :=
+  let w := breakWindow t b
+  match b.policy with
+  | some .arrivalBeforeEnd => decide (tourArrival t > w.2)
+  | _ => meets w (tourDeparture t, tourArrival t)
+
+/-- every break activity lies in the window of a break of the shift at one of its places; breaks served plus
+breaks reported as violations = breaks due -/
+def breaksTourOk (P : Problem) (S : Solution) (t : Tour) : Bool :=
+  match shiftOf P t with
+  | none => false
+  | some sh =>
+    t.stops.all (fun s => s.acts.all (fun a => a.ty != .brk ||
+      sh.breaks.any (fun b => meets (breakWindow t b) (actTime s a) &&
+        b.places.any (fun p => match p.loc with | some l => actLoc s a == l | none => actLoc s a == s.loc)))) &&
+    countP (fun a => a.ty == .brk) (tourActs t) + countP (fun v => v.1 == t.vehicleId && v.2 == t.shiftIndex) S.violations
+      == countP (breakDue t) sh.breaks
+
+def breaksOk (P : Problem) (S : Solution) : Bool := S.tours.all (breaksTourOk P S)
+
+/-! ## activities match the places they claim -/
+
+def extraOf (s : Stop) (a : Act) (dur : Int) : Int := extraTime s a dur
+
+/-- service: starts at max(arrival, window start), lasts the place's duration (plus a break taken inside) -/
+def serviceOk (s : Stop) (a : Act) (twStart dur : Int) : Bool :=
+  let tm := actTime s a
+  tm.2 == max tm.1 twStart + dur + extraOf s a dur
+
+def actMatches (P : Problem) (t : Tour) (s : Stop) (a : Act) : Bool :=
+  let tm := actTime s a
+  match a.ty with
+  | .departure | .arrival => true
+  | .pickup | .delivery | .replacement | .service =>
+    (match findJob P a.jobId, kindOfTy a.ty with
+     | some j, some k =>
+       (tasksOf j k).any (fun tk => tk.places.any (fun p =>
+         p.loc == actLoc s a && p.tag == a.tag && p.tws.any (fun w => w.meets tm && serviceOk s a w.s p.dur)))
+     | _, _ => false)
+  | .reload =>
+    (match shiftOf P t with
+     | none => false
+     | some sh => sh.reloads.any (fun r => r.loc == actLoc s a && r.tag == a.tag &&
+         r.tws.any (fun w => w.meets tm && serviceOk s a w.s r.dur)))
+  | .brk =>
+    (match shiftOf P t with
+     | none => false
+     | some sh => sh.breaks.any (fun b => meets (breakWindow t b) tm && b.places.any (fun p =>
+         (match p.loc with | some l => l == actLoc s a | none => true) && p.tag == a.tag &&
+         (if b.offset then decide (tm.1 + p.dur ≤ tm.2) else serviceOk s a b.t0 p.dur))))
+  | _ => false
+
+def matchOk (P : Problem) (S : Solution) : Bool :=
+  S.tours.all (fun t => t.stops.all (fun s => s.acts.all (fun a => actMatches P t s a)))
+
+/-! ## the conjunction -/
+
+def parts (P : Problem) (S : Solution) : List (String × Bool) :=
+  [("vehicles", vehiclesOk P S), ("partition", partitionOk P S), ("groups", groupsOk P S), ("loads", loadsOk P S),
+   ("routing", routingOk P S), ("limits", limitsOk P S), ("relations", relationsOk P S), ("breaks", breaksOk P S),
+   ("match", matchOk P S)]
+
+def validSolution (P : Problem) (S : Solution) : Bool := (parts P S).all (fun p => p.2)
+
+/-! ## supported input shapes (where the unchanged checker decides correctly) -/
+
+/-- tour shape: starts with a lone departure activity in its own stop, `arrival` only as the last activity of a
+closed shift's tour, reload activities only as the first activity of a stop that is not the first stop,
+break activities only at the first or last position of a stop that is not the first stop (D1a, D5, D6, D9) -/
+def tourShapeOk (P : Problem) (t : Tour) : Bool :=
+  match t.stops with
+  | [] => false
+  | s0 :: rest =>
+    (s0.acts.map (fun a => a.ty)) == [.departure] &&
+    rest.all (fun s => !s.acts.isEmpty) &&
+    rest.all (fun s => (s.acts.drop 1).all (fun a => a.ty != .reload)) &&
+    rest.all (fun s => !(isReloadStop s) || (s.acts.drop 1).all (fun a => !isJobTy a.ty)) &&
+    rest.all (fun s => ((s.acts.drop 1).dropLast).all (fun a => a.ty != .brk)) &&
+    (tourActs t).all (fun a => a.ty != .departure || true) &&
+    countP (fun a => a.ty == .departure) (tourActs t) == 1 &&
+    (match shiftOf P t with
+     | none => false
+     | some sh =>
+       (match sh.end_ with
+        | some _ => countP (fun a => a.ty == .arrival) (tourActs t) == 1 &&
+                    (match (tourActs t).getLast? with | some a => a.ty == .arrival | none => false)
+        | none => countP (fun a => a.ty == .arrival) (tourActs t) == 0))
+
+/-- the shift found by time is the shift named by index (D7); break policies agree with the documented ones on
+this tour (D1b, D8, D10) -/
+def shiftAgrees (P : Problem) (t : Tour) : Bool :=
+  match shiftOf P t, vehicleShift P t with
+  | some a, .ok b => a == b && a.breaks.all (fun br => shouldAssign t br == breakDue t br)
+  | _, _ => false
+
+def problemShapeOk (P : Problem) : Bool :=
+  !hasDup (P.jobs.map (fun j => j.id)) &&
+  P.jobs.all (fun j => j.tasks.all (fun tk => tk.kind != .replacement && !tk.places.isEmpty)) &&
+  -- places of one job are told apart by location or tag, windows are far apart (D2, D4)
+  P.jobs.all (fun j => !hasDup ((j.tasks.flatMap (fun tk => tk.places)).map (fun p => (p.loc, p.tag)))) &&
+  -- multi-task jobs carry a tag on every place (the checker refuses them otherwise)
+  P.jobs.all (fun j => j.tasks.length ≤ 1 || j.tasks.all (fun tk => tk.places.all (fun p => p.tag.isSome))) &&
+  P.vehicles.all (fun v => v.shifts.all (fun sh =>
+    !hasDup (sh.reloads.map (fun r => (r.loc, r.tag))) || (dedup (sh.reloads.map (fun r => r.dur))).length ≤ 1)) &&
+  -- relations name reserved ids at most once (S29)
+  P.relations.all (fun r => !hasDup (r.jobs.filter isReservedId) && (r.kind != .any || r.jobs.all (fun id => !isReservedId id)))
+
+def supported (P : Problem) (S : Solution) : Bool :=
+  problemShapeOk P && S.tours.all (fun t => tourShapeOk P t && shiftAgrees P t) &&
+  -- S29a: a sequence relation names a reserved id only if the tour has it once
+  P.relations.all (fun r => r.kind != .sequence ||
+    (match findTour S r.vehicleId (r.shiftIndex.getD 0) with
+     | none => true
+     | some t => (r.jobs.filter isReservedId).all (fun id => countP (fun x => x == id) (tourIds t) ≤ 1)))
+
+end Spec
+
 end C12
